@@ -250,9 +250,6 @@ func (r *Reference) Set(t Tag, value string) error {
 			return err
 		}
 		r.uri = uri
-		if r.uri.Scheme != "http" && r.uri.Scheme != "ftp" {
-			r.uri.Scheme = "file"
-		}
 	default:
 		if value == "" {
 			for i, tp := range r.otherTags {
